@@ -320,7 +320,7 @@ def check_order1(m, rows):
 def run(ctx):
     rng = ctx.rng
     kinds = ['tet', 'hex', 'shell:tri', 'shell:quad', 'mixed-nopyr', 'tet2', 'prism', 'shell:mixed', 'mixed', 'pyr']
-    n_mesh = ctx.n(60, 600) if ctx.driver is not None else ctx.n(150, 1000)
+    n_mesh = ctx.n(200, 1500) if ctx.driver is not None else ctx.n(400, 3000)
     for k in range(n_mesh):
         kind = kinds[k % len(kinds)]
         m = gen_mesh(rng, kind)
